@@ -52,6 +52,7 @@ class LBiv:
     lab = None
     calls = None
     n = 0
+    epoch = 0            # every build() gets its own theta range: a copula object that outlives its vine is recognisable
     h_override = None
 
     def __init__(self, copula_type=None, random_state=None):
@@ -63,13 +64,14 @@ class LBiv:
         cls.lab = Lab()
         cls.calls = []
         cls.n = 0
+        cls.epoch += 1
         cls.h_override = None
 
     @classmethod
     def select_copula(cls, X):
         X = np.asarray(X, dtype=object)
         cls.n += 1
-        th = 1.0 + cls.n
+        th = 1.0 + cls.n + 1000.0 * cls.epoch
         fam = [CopulaTypes.CLAYTON, CopulaTypes.FRANK, CopulaTypes.GUMBEL][cls.n % 3]
         cls.calls.append({'op': 'select', 'a': cls.lab.get(X[:, 0]), 'b': cls.lab.get(X[:, 1]), 'fam': fam, 'theta': th})
         c = LBiv(fam)
@@ -123,7 +125,7 @@ def patches(rng=None):
     return patched(TR, np=sh, Bivariate=LBiv, scipy=ns(stats=ns(kendalltau=kt))), patched(VN, np=sh, Bivariate=LBiv)
 
 
-def build(ctx, d, tree_type, rows, concrete_tau=None):
+def build(ctx, d, tree_type, rows, concrete_tau=None, truncated=None):
     """fit the trees with the real code; returns the vine"""
     Havoc.reset()
     LBiv.reset()
@@ -145,7 +147,7 @@ def build(ctx, d, tree_type, rows, concrete_tau=None):
     for j in range(d):
         LBiv.lab.put(U[:, j], (j, frozenset()))
     v.u_matrix = U
-    v.truncated = d
+    v.truncated = truncated or d
     v.depth = d - 1
     v.trees = []
     v.columns = [f'v{j}' for j in range(d)]
@@ -246,13 +248,13 @@ def clamp_case():
     return res, 2
 
 
-def likelihood_case(d, tree_type):
+def likelihood_case(d, tree_type, truncated=None):
     """get_likelihood(u) = sum over all edges of log c_e(F(a|D), F(b|D)); no uninitialised memory.
     The tau matrix is symbolic: every structure the construction can produce is covered."""
     def fn(ctx):
         p1, p2 = patches()
         with p1, p2:
-            v = build(ctx, d, tree_type, 1)
+            v = build(ctx, d, tree_type, 1, truncated=truncated)
             n_fit = len(LBiv.calls)
             x = np.empty((1, d), dtype=object)
             for j in range(d):
@@ -272,6 +274,8 @@ def likelihood_case(d, tree_type):
         v, val, calls = p.value
         cs = [c for c in calls if c['op'] == 'c']
         edges = [(k, e) for k, t in enumerate(v.trees, start=1) for e in t.edges]
+        if len(v.trees) != min(d - 1, truncated or d):
+            bad.append(f'{len(v.trees)} trees for d={d}, truncated={truncated}')
         if len(cs) != len(edges):
             bad.append(f'{len(cs)} density evaluations for {len(edges)} edges')
             continue
@@ -296,7 +300,7 @@ def likelihood_case(d, tree_type):
         s.add(val.t != spec)
         if s.check() != z3.unsat:
             bad.append('likelihood is not the sum of the log pair-copula densities')
-    res.append((f'{tree_type} d={d}: get_likelihood = sum_e log c_e(F(a|D),F(b|D)), deterministic, no uninitialised reads ({len(paths)} paths)',
+    res.append((f'{tree_type} d={d} truncated={truncated or "no"}: get_likelihood = sum_e log c_e(F(a|D),F(b|D)), deterministic, no uninitialised reads ({len(paths)} paths)',
                 'unsat' if not bad and ex else ('unknown' if not bad else 'sat'), bad[:3]))
     return res, len(paths)
 
@@ -310,6 +314,13 @@ def sample_case(d, tree_type):
             T = rs.uniform(-0.9, 0.9, size=(d, d))
             T = (T + T.T) / 2
             np.fill_diagonal(T, 1.0)
+            if d == 2:
+                # an earlier model in the same process, fitted and sampled: nothing of it may leak into the model under test
+                v0 = build(ctx, 2, tree_type, 2, concrete_tau=np.array([[1.0, -0.4], [-0.4, 1.0]]))
+                v0.ppfs = [gm.StubUni(j).percent_point for j in range(2)]
+                v0.random_state = None
+                v0.sample(1)
+                del rng.requests[:]
             v = build(ctx, d, tree_type, 2, concrete_tau=T)
             unis = [gm.StubUni(j) for j in range(d)]
             v.ppfs = [u.percent_point for u in unis]
@@ -339,6 +350,11 @@ def sample_case(d, tree_type):
             for x in out[c]:
                 if isinstance(x, SymReal) and z3.is_app(x.t) and x.t.decl().eq(gm.QJ) and x.t.arg(0).as_long() != j:
                     bad.append(f'column {c} holds a quantile of marginal {x.t.arg(0)}')
+        own = {(e.name, e.theta) for t in v.trees for e in t.edges}
+        for c in calls:
+            if c['op'] in ('ppf', 'h', 'c') and (c['fam'], c['theta']) not in own:
+                bad.append(f'sampling evaluates a pair copula ({c["fam"]}, theta label {c["theta"]}) that is not on any edge of this model')
+                break
         if d == 2:
             # second visited variable = Q(clamp(h^-1(u_b | u_a)))
             pp = [c for c in calls if c['op'] == 'ppf']
@@ -359,7 +375,7 @@ def task(a):
         elif kind == 'clamp':
             r, n = clamp_case()
         elif kind == 'lik':
-            r, n = likelihood_case(a[1], a[2])
+            r, n = likelihood_case(a[1], a[2], a[3] if len(a) > 3 else None)
         else:
             r, n = sample_case(a[1], a[2])
         return (a, r, n, time.time() - t0)
@@ -370,7 +386,7 @@ def task(a):
 
 # ---------------------------------------------------------------- concrete replay on the real code
 
-def real_vine(d, tree_type, seed=0, tau=None):
+def real_vine(d, tree_type, seed=0, tau=None, truncated=None):
     warnings.simplefilter('ignore')
     rs = np.random.RandomState(seed)
     if tau is not None:
@@ -381,7 +397,10 @@ def real_vine(d, tree_type, seed=0, tau=None):
         cov = A @ A.T + 0.5 * np.eye(d)
         X = pd.DataFrame(rs.multivariate_normal(np.zeros(d), cov, size=150), columns=[f'v{j}' for j in range(d)])
     v = VineCopula(tree_type, random_state=1)
-    v.fit(X)
+    if truncated is None:
+        v.fit(X)
+    else:
+        v.fit(X, truncated=truncated)
     return v, X
 
 
@@ -450,7 +469,8 @@ def _concrete_violation(kind, d, tree_type, tau=None, seed=0):
                         return True, f'tree {k} edge: pseudo-observations not strictly inside (0,1)'
                     F[(e.L, frozenset(D | {e.R}))] = e.U[0]
                     F[(e.R, frozenset(D | {e.L}))] = e.U[1]
-        if kind == 'lik':
+        for vv in ([v] + [real_vine(d, tree_type, seed, tau, truncated=tr)[0] for tr in sorted({1, d - 1, d} - {0})] if kind == 'lik' else []):
+            v = vv
             u = np.random.RandomState(3).uniform(0.1, 0.9, size=(1, d))
             got = v.get_likelihood(u)
             got2 = v.get_likelihood(u.copy())
@@ -466,11 +486,26 @@ def _concrete_violation(kind, d, tree_type, tau=None, seed=0):
                     F[(e.L, frozenset(D | {e.R}))] = cop.partial_derivative(np.column_stack((a, b)))
                     F[(e.R, frozenset(D | {e.L}))] = cop.partial_derivative(np.column_stack((b, a)))
             if not (np.isclose(got, tot, rtol=1e-6) and (got == got2 or (got != got and got2 != got2))):
-                return True, f'get_likelihood={got} (repeat {got2}) but sum of log pair densities={tot}'
+                return True, f'get_likelihood={got} (repeat {got2}) but sum of log pair densities={tot} (fit with truncated={v.truncated}, {len(v.trees)} trees)'
         if kind == 'sample':
             out = v.sample(4)
             if list(out.columns) != list(X.columns) or len(out) != 4 or out.isna().any().any():
                 return True, f'sample: schema/NaN {out.shape} {list(out.columns)} nan={out.isna().any().any()}'
+            # two models in one process: the second samples with its own pair copula
+            from scipy import stats
+            rs = np.random.RandomState(seed + 40)
+            a = rs.normal(size=300)
+            taus = []
+            for rho in ((0.92, -0.85) if (tau is None and seed == 0) else ()):
+                Y = pd.DataFrame({'p': a, 'q': rho * a + np.sqrt(1 - rho * rho) * rs.normal(size=300)})
+                w = VineCopula(tree_type, random_state=2)
+                w.fit(Y)
+                S = w.sample(150)
+                taus.append((stats.kendalltau(Y['p'], Y['q'])[0], stats.kendalltau(S['p'], S['q'])[0]))
+            for tr_, sm_ in taus:
+                if not np.isfinite(sm_) or tr_ * sm_ <= 0 or abs(sm_) < 0.25:
+                    return True, (f'two {tree_type} vines fitted one after the other on 2-column tables with Kendall tau {taus[0][0]:+.2f} and '
+                                  f'{taus[1][0]:+.2f}: their samples have tau {taus[0][1]:+.2f} and {taus[1][1]:+.2f}')
     except Exception as e:
         return True, f'{kind} on a fitted {tree_type} vine (d={d}) raises {type(e).__name__}: {e}'
     return False, ''
@@ -500,6 +535,8 @@ def run(tier, seed):
         for d in (2, 3, 4):
             jobs.append(('flow', d, t))
             jobs.append(('lik', d, t))
+            for tr in sorted({1, d - 1} - {0}):
+                jobs.append(('lik', d, t, tr))
         for d in (2, 3):
             jobs.append(('sample', d, t))
     for a, res, n, secs in pool_map(task, jobs):
